@@ -342,12 +342,26 @@ func RunDigest(s *Spec, v *CommandView) string {
 }
 
 // OutputListing is what the command writes for digest dg.
-func OutputListing(s *Spec, dg string) Listing {
+func OutputListing(s *Spec, dg string, v *CommandView) Listing {
 	var l Listing
-	for _, o := range s.Outs {
+	// "mirror" commands copy their i-th input (sorted) to their i-th file output, like cp:
+	// the content of an output does not depend on its path, two outputs can swap contents
+	var mirror []string
+	if s.Proj == "mirror" && v != nil {
+		for _, name := range sortedKeys(v.Inputs) {
+			if c := v.Inputs[name]; c != nil {
+				mirror = append(mirror, *c)
+			}
+		}
+	}
+	for i, o := range s.Outs {
 		base := path.Join(s.Pkg, o.Path)
 		switch o.Kind {
 		case "file":
+			if len(mirror) > 0 {
+				l = append(l, Entry{Path: base, Kind: "file", Data: "copy:" + mirror[i%len(mirror)] + "\n"})
+				continue
+			}
 			h := hexDigest(dg, o.Path)
 			n := 8 + int(h[0])%40 // sizes vary with the content: restores meet longer and shorter old files
 			l = append(l, Entry{Path: base, Kind: "file", Data: h[:n] + "\n"})
@@ -417,7 +431,7 @@ func (e *Eval) Clean(l string) Listing {
 			v.DepListings[d] = e.Clean(d)
 		}
 	}
-	out := OutputListing(s, RunDigest(s, v))
+	out := OutputListing(s, RunDigest(s, v), v)
 	e.clean[l] = out
 	return out
 }
